@@ -20,20 +20,24 @@ CLAIM = dict(
           "non-empty (confinement); every read/write/seek/tell refines a fixed-length file with a position "
           "(bytes returned, truncation at the end with a warning, position advances by the bytes transferred, "
           "memory outside the view untouched), call by call and for whole histories on a view; a slice covers exactly the sub-range Python's slice.indices names; "
-          "after close or free every I/O operation raises OSError and no access is ever issued again. Tied to the "
+          "after close or free every I/O operation and every slicing raises OSError and no access is ever issued again. Tied to the "
           "code by exact correspondence of whole histories against a recording controller, with the Lean "
           "specification evaluated on every observed call of the implementation."),
     design="3/C13",
     note=("read/write are modelled WITH fixes/c13-memoryio-confinement.diff (the unchanged code reads/writes below the "
           "start after a negative seek and writes past the end after a seek beyond the end; kept as decide "
           "witnesses). seek(n, 2) moves to len-n instead of len+n: known finding seek-from-end-sign (pinned by the "
-          "repository's test_seek_from_end). __getitem__ and __len__ are not guarded by the closed/freed check "
-          "(they access no memory); 'every operation fails' is claimed for read, write, seek, tell, flush, address."),
+          "repository's test_seek_from_end). __getitem__ is modelled WITH fixes/c13-getitem-closed.diff "
+          "(@_if_not_closed): without it slicing a closed view returns a fresh open view (finding dead-view-sliced, "
+          "kept as a decide witness). 'every operation fails' after close/free is claimed and proved for read, "
+          "write, seek, tell, flush, address and slicing; __len__ and a repeated close() are not in the property's "
+          "list of operations (they touch no memory, the code does not guard them) and are left as they are."),
     technique="Lean 4 theorems over a hand-written model + differential correspondence + Lean spec as oracle")
 
 THEOREMS = ["step_confined", "step_WF", "run_confined", "run_confined_alloc", "slice_exact", "slice_within_parent",
             "step_refines_file", "run_refines_file", "read_back", "close_closes", "dead_after_close", "free_frees",
             "no_access_after_free", "orig_read_escapes_below", "orig_write_escapes_above", "fix_conservative",
+            "orig_slice_of_closed_view_is_open", "getitem_fix_conservative",
             "seek_end_sign"]
 
 RULE = ("histories of 1-14 calls (seek with all three origins and offsets from -len-3 to len+4 biased to the edges, "
@@ -49,7 +53,7 @@ BASES = [0, 1, 7, 0x60000000, 0x60000004, 0x61000003, 0x7ffffff0]
 
 # priority of the clause names returned by the Lean oracle -> finding key
 PRIORITY = [("confinement", "confinement"), ("confinement-memory", "confinement"),
-            ("dead", "dead-view-operates"), ("slice-range", "slice-range"), ("slice-effect", "slice-range"),
+            ("dead", "dead-view-operates"), ("dead-sliced", "dead-view-sliced"), ("slice-range", "slice-range"), ("slice-effect", "slice-range"),
             ("seek-from-end-sign", "seek-from-end-sign"),
             ("file-transfer", "bounded-file"), ("file-result", "bounded-file"), ("file-warning", "bounded-file"),
             ("file-position", "bounded-file"), ("file-content", "bounded-file")]
@@ -57,6 +61,7 @@ PRIORITY = [("confinement", "confinement"), ("confinement-memory", "confinement"
 WHAT = {
     "confinement": "a view issued a controller access outside its own range (or changed memory outside it)",
     "dead-view-operates": "an operation on a closed view / freed allocation did not fail with OSError",
+    "dead-view-sliced": "slicing a closed view / a view of a freed allocation did not fail (it returned a fresh open view)",
     "slice-range": "a slice does not cover exactly the clipped sub-range it names",
     "seek-from-end-sign": "seek(n, 2) moves to len-n; the documented (file) semantics is len+n",
     "bounded-file": "a call does not behave like the same call on a fixed-length file",
@@ -194,7 +199,13 @@ def run_impl(case):
     views = [root]
     root0 = snap(root)
     outs, steps = [], []
-    for op in case["ops"]:
+    for k, op in enumerate(case["ops"]):
+        if not 0 <= op["v"] < len(views):
+            # the history refers to a view this implementation never created (an earlier slicing
+            # behaved differently from what the generator assumed): same result as the model's
+            # `noSuchView`, nothing is called, the oracle skips the step
+            outs.append({"ret": {"err": "noSuchView"}, "warn": False, "acc": None})
+            continue
         v = views[op["v"]]
         pre, freed = snap(v), bool(root._freed)
         del mc.log[:]
@@ -218,7 +229,7 @@ def run_impl(case):
         if len(mc.log) > 1:
             out["extra_acc"] = [list(a) for a in mc.log[1:]]
         outs.append(out)
-        steps.append({"root": op["v"] == 0, "pre": pre, "freed": freed, "op": op, "out": out,
+        steps.append({"idx": k, "root": op["v"] == 0, "pre": pre, "freed": freed, "op": op, "out": out,
                       "post": snap(v), "pfreed": bool(root._freed), "nv": nv, "win": list(mc.mem)})
     return {"outs": outs, "steps": steps, "views": [snap(v) for v in views], "root0": root0,
             "freed": bool(root._freed), "win": list(mc.mem), "alloc": getattr(mc, "alloc", None)}
@@ -237,6 +248,7 @@ def lean_reqs(case, impl):
             tr[k] = case[k]
     ck = {"suite": "c13", "op": "check", "x": case["x"], "y": case["y"], "base": base, "win": case["win"],
           "steps": [dict(s, out={k: s["out"][k] for k in ("ret", "warn", "acc")}) for s in impl["steps"]]}
+    # memory before a step = memory after the previous executed step (skipped steps touch nothing)
     if impl["alloc"] is not None:
         # the view must span exactly what was allocated: sdram_alloc(size) returned `start`
         ck["alloc"] = [start, impl["alloc"][0]]
@@ -276,15 +288,16 @@ def judge(case, impl, model, check):
     if "proto_error" in check:
         mm = mm or ("oracle: " + check["proto_error"])
     else:
-        for i, fails in enumerate(check["fails"]):
+        for st, fails in zip(impl["steps"], check["fails"]):
             if fails:
-                viol.append((i, key_of(fails), fails))
+                viol.append((st["idx"], key_of(fails), fails))
         if check.get("root"):
             viol.append((-1, "confinement", ["root-view-is-not-the-allocation"]))
     # an extra controller access in the same call: judge its confinement here
     for i, o in enumerate(impl["outs"]):
         for a in o.get("extra_acc", []):
-            s, e = impl["steps"][i]["pre"][0], impl["steps"][i]["pre"][1]
+            st = next(t for t in impl["steps"] if t["idx"] == i)
+            s, e = st["pre"][0], st["pre"][1]
             n = a[2] if a[0] == "r" else len(a[2]) if a[0] == "w" else 1
             if a[0] == "f" or not (s <= a[1] and a[1] + n <= e and n > 0):
                 viol.append((i, "confinement", ["confinement"]))
@@ -305,21 +318,14 @@ def eval_cases(ctx, cases, report=True):
     return res
 
 
-def n_views_after(ops):
-    n = 1
-    for op in ops:
-        if op["k"] == "slice" and op["s"] in (None, 1):
-            n += 1
-    return n
-
-
-def drop_op(case, k):
-    """case without op k (indices of later views adjusted); None if not possible"""
+def drop_op(case, k, outs):
+    """case without op k (indices of later views adjusted); None if not possible.
+    `outs`: what the implementation returned for each op of `case`"""
     ops = case["ops"]
-    op = ops[k]
     new = [dict(o) for o in ops[:k]]
-    if op["k"] == "slice" and op["s"] in (None, 1):
-        j = n_views_after(ops[:k])          # index of the view this op created
+    r = outs[k]["ret"] if k < len(outs) else None
+    if isinstance(r, dict) and "view" in r:
+        j = r["view"]                       # index of the view this op created
         for o in ops[k + 1:]:
             if o["v"] == j:
                 return None
@@ -334,18 +340,24 @@ def drop_op(case, k):
 
 def shrink(ctx, case, key, budget=60):
     """greedy: cut the tail after the first failing step, then drop single ops"""
+    last = {}
+
     def fails(c):
         (mm, viol, im), = eval_cases(ctx, [c])
-        return [i for i, k, _ in viol if k == key]
+        f = [i for i, k, _ in viol if k == key]
+        if f:
+            last["outs"] = im["outs"]
+        return f
     f = fails(case)
     if not f:
         return case
     case = dict(case, ops=case["ops"][:max(f[0], 0) + 1])
+    last["outs"] = last["outs"][:len(case["ops"])]
     changed = True
     while changed and budget > 0:
         changed = False
         for k in range(len(case["ops"]) - 2, -1, -1):
-            c2 = drop_op(case, k)
+            c2 = drop_op(case, k, last["outs"])
             budget -= 1
             if c2 is not None and fails(c2):
                 case, changed = c2, True
@@ -390,7 +402,7 @@ def process(ctx, cases):
                 detail = " | the view created for an allocation of %r bytes at %r is %r" % (
                     im2["alloc"][0], small["start"], im2["root0"])
             elif first:
-                st = im2["steps"][first[0]]
+                st = next(t for t in im2["steps"] if t["idx"] == first[0])
                 detail = " | step %d: view [start,stop,offset,closed]=%r freed=%r op=%r -> %r, view after %r; failed clauses %r" % (
                     first[0], st["pre"], st["freed"], st["op"], st["out"], st["post"], first[1])
             ctx.violation(key, WHAT.get(key, key) + detail, small)
@@ -435,6 +447,7 @@ def gen_case(rng):
     case["win"] = [rng.randrange(256) for _ in range(2 * MARGIN + L)]
     lens = [L]        # generator aid only: lengths of the views created so far
     depth = [0]
+    closed, freed = [False], False      # generator aid: which views the guarded code refuses to slice
     ops = []
     for _ in range(rng.randint(1, 14)):
         v = rng.randrange(len(lens)) if rng.random() < 0.7 else len(lens) - 1
@@ -460,10 +473,11 @@ def gen_case(rng):
             b = None if rng.random() < 0.25 else edge_int(rng, Lv)
             s = rng.choice([None, None, None, 1, 1, 2, -1, 0])
             op = {"k": "slice", "v": v, "a": a, "b": b, "s": s}
-            if s in (None, 1):
+            if s in (None, 1) and not closed[v] and not freed:
                 lo, hi, _ = slice(a, b).indices(Lv)
                 lens.append(max(0, hi - lo))
                 depth.append(depth[v] + 1)
+                closed.append(False)
         elif r < 0.80:
             op = {"k": "index", "v": v, "tuple": rng.random() < 0.5}
         elif r < 0.85:
@@ -476,8 +490,12 @@ def gen_case(rng):
             op = {"k": "flush", "v": v}
         elif r < 0.97:
             op = {"k": "close", "v": v, "with": rng.random() < 0.3}
+            if not freed:
+                closed[v] = True
         else:
             op = {"k": "free", "v": v if rng.random() < 0.3 else 0}
+            if op["v"] == 0:
+                freed = True
         ops.append(op)
     case["ops"] = ops
     return case
@@ -499,12 +517,17 @@ def exhaustive_cases(maxlen):
     the most recently created view (free: on the owner)"""
     for n in range(1, maxlen + 1):
         for seq in itertools.product(range(len(EXH_ALPHABET)), repeat=n):
-            ops, nv = [], 1
+            ops, nv, closed, freed = [], 1, False, False
             for a in seq:
                 op = dict(EXH_ALPHABET[a])
                 op["v"] = 0 if op["k"] == "free" else nv - 1
-                if op["k"] == "slice":
-                    nv += 1
+                if op["k"] == "slice" and not closed and not freed:
+                    nv += 1          # (slicing a closed view / freed allocation creates nothing)
+                    closed = False
+                elif op["k"] == "close" and not freed:
+                    closed = True
+                elif op["k"] == "free":
+                    freed = True
                 ops.append(op)
             yield {"x": 3, "y": 5, "margin": 8, "mode": "direct", "start": 0x60000000, "stop": 0x60000003,
                    "win": list(range(10, 10 + 19)), "ops": ops}
@@ -542,8 +565,9 @@ def run(ctx):
     ctx.extra["rule"] = RULE
     ctx.assumptions += [
         "the controller's read returns exactly the requested number of bytes and write stores exactly the given bytes (C07)",
-        "'every operation fails' after close/free is claimed for read, write, seek, tell, flush and address; "
-        "__getitem__, __len__ and a repeated close() touch no memory and are not guarded by the code",
+        "'every operation fails' after close/free is claimed for read, write, seek, tell, flush, address and "
+        "slicing; __len__ and a repeated close() are not among the property's operations (no memory access, not "
+        "guarded by the code)",
         "a view's position may be any integer (seek does not clip, as the repository's tests require); bytes are "
         "transferred only between positions 0 and len",
     ]
